@@ -196,6 +196,10 @@ func judge(s *Scenario, o *Obs) *verdict {
 		v.Inconc = append(v.Inconc, "unknown status "+o.Status)
 		return v
 	}
+	if s.W != nil {
+		judgeWaiters(s, o, v)
+		return v
+	}
 	top, ok := asList(o.Value)
 	if !ok || len(top) != 3 {
 		v.add("result-shape", "script result is not [sres, rres, post]: %s", show(o.Value))
@@ -548,6 +552,9 @@ func renderHistory(st []Stamp, ch int) string {
 }
 
 func (s *Scenario) hangClass() string {
+	if s.W != nil {
+		return s.W.class()
+	}
 	var parts []string
 	for ch := range s.Chans {
 		parts = append(parts, s.shape(ch))
@@ -623,6 +630,12 @@ func drive(d *mon.Driver, replay string) int {
 			for k := 0; k < 2; k++ {
 				plan = append(plan, planned{s: p}, planned{s: p, race: true})
 			}
+		}
+		// one thread object waited for by several goroutines at once
+		rw := d.Rand("waiters")
+		for i := 0; i < d.N(48, 2000); i++ {
+			s := genWaitScenario(rw.SplitN(i), i, d.Thorough())
+			plan = append(plan, planned{s: s}, planned{s: s, race: true})
 		}
 	}
 
@@ -701,7 +714,13 @@ func drive(d *mon.Driver, replay string) int {
 	var totalMs = map[string]int64{}
 	judgeRun := func(c mon.Case, p *planned, o *Obs, rerun bool) {
 		d.Eval(1)
-		slowest = append(slowest, slowRun{c.ID, o.Ms, p.s.hangClass(), p.s.Procs, p.s.Chans[0].N})
+		nmsg := 0
+		if len(p.s.Chans) > 0 {
+			nmsg = p.s.Chans[0].N
+		} else if p.s.W != nil {
+			nmsg = p.s.W.Rounds
+		}
+		slowest = append(slowest, slowRun{c.ID, o.Ms, p.s.hangClass(), p.s.Procs, nmsg})
 		sort.Slice(slowest, func(i, j int) bool { return slowest[i].Ms > slowest[j].Ms })
 		if len(slowest) > 8 {
 			slowest = slowest[:8]
@@ -736,6 +755,11 @@ func drive(d *mon.Driver, replay string) int {
 			} else {
 				d.Event("channel_groups_without_overlap", 1)
 			}
+		}
+		if p.s.W != nil && p.s.W.Waiters >= 2 {
+			// ≥2 waiter goroutines plus the spawner call wait() on one thread whose call ends while they do
+			d.Distinct(p.s.W.distinctKey(p.s.Procs))
+			d.Event("shared_thread_scenarios", 1)
 		}
 		if samples < 4 && len(v.Findings) == 0 && len(p.s.Gors) >= 3 && p.s.Chans[0].N <= 10 {
 			samples++
